@@ -66,7 +66,7 @@ inline std::string forked(const std::function<std::string()> &f) {
         std::string why = f();
         if (!why.empty()) (void)!write(fd[1], why.data(), why.size() > 4000 ? 4000 : why.size());
         close(fd[1]);
-        _exit(why.empty() ? 0 : 1);
+        _exit(why.empty() || why[0] == 1 ? 0 : 1);
     }
     close(fd[1]);
     std::string why;
